@@ -73,6 +73,20 @@ def run_harness(exe, args, timeout=1800):
     """Runs the harness; returns its stdout (the harness writes traces to files given in args)."""
     p = subprocess.run([exe] + [str(a) for a in args], stdout=subprocess.PIPE, stderr=subprocess.PIPE, text=True,
                        timeout=timeout)
+    if p.returncode == 3 and "--out" in [str(a) for a in args]:
+        # the harness watchdog: a call into the code under test did not return.  That is data: cut the trace at its last
+        # complete line and append a panic event (every monitor reports PANIC).
+        tf = str(args[[str(a) for a in args].index("--out") + 1])
+        if os.path.exists(tf + ".hang"):
+            os.remove(tf + ".hang")
+            data = open(tf, "rb").read() if os.path.exists(tf) else b""
+            cut = data.rfind(b"\n") + 1
+            with open(tf, "wb") as f:
+                f.write(data[:cut])
+                f.write((json.dumps({"ev": "panic", "hang": True, "msg": "hang: a call into the code under test did not return (watchdog)", "ep": -1, "now": -1,
+                                     "op": "hang", "n": 0, "off": 0, "size": 0, "w": 0, "k": -1, "before": "?", "s": {}}) + "\n").encode())
+            log("[harness] watchdog: %s hung; recorded as a panic event" % " ".join(map(str, args[:3])))
+            return p.stdout
     if p.returncode != 0:
         sys.stdout.write(p.stdout[-3000:])
         sys.stdout.write(p.stderr[-3000:])
